@@ -28,8 +28,12 @@ for ID in $IDS; do
   if ! ( cd $S/harness && cargo build --profile vcheck --offline >$S/build.log 2>&1 ); then
     echo "$ID: BUILD-FAILED" | tee -a $S/results.txt; continue
   fi
+  BIN=""
+  case " $PROPS " in *" C20 "*|*" C17 "*)
+    ( cd $S/repo && cargo build --offline --bin simplesl --target-dir $S/repo-bin >>$S/build.log 2>&1 ) && BIN=$S/repo-bin/debug/simplesl ;;
+  esac
   for P in $PROPS; do
-    OUT="$(VERIF_REPO=$S/repo VERIF_ROOT=$S/out VERIF_SEED=${VERIF_SEED:-20260924} $S/harness/target/vcheck/vcheck $P quick 2>&1)"; RC=$?
+    OUT="$(VERIF_SIMPLESL_BIN=$BIN VERIF_REPO=$S/repo VERIF_ROOT=$S/out VERIF_SEED=${VERIF_SEED:-20260924} $S/harness/target/vcheck/vcheck $P quick 2>&1)"; RC=$?
     echo "$ID vs $P: exit=$RC $(echo "$OUT" | grep -E '^sig:' | head -1)" | tee -a $S/results.txt
   done
 done
